@@ -313,6 +313,144 @@ def visible_marking(callee):
     return visible(callee)
 
 
+def work_item():
+    return some_item()
+
+
+def some_item():
+    from ..mir.models import some
+    return some(Tup((addr(),), name="WorkItem"))
+
+
+def _taken_item(it, ctx, path, what):
+    from ..mir.models import NONE
+    r = take(it, ctx, path, what)
+    if z3.is_true(z3.simplify(r)):
+        pset(it, (4, it.thread), z3.BoolVal(True))
+        pset(it, (6,), cnt(pget(it, 6).t + 1))
+        return some_item()
+    return NONE
+
+
+def ck_pop_local(it, ctx, fn, args):
+    pset(it, (4, it.thread), z3.BoolVal(False))
+    return _taken_item(it, ctx, (0, it.thread), "pop from local vector")
+
+
+def ck_pop_worker(it, ctx, fn, args):
+    return _taken_item(it, ctx, (1, it.thread), "pop from own deque")
+
+
+def ck_pop_global(it, ctx, fn, args):
+    return _taken_item(it, ctx, (2,), "pop from injector")
+
+
+def ck_steal(it, ctx, fn, args):
+    from ..mir.models import NONE
+    r = p_steal(it, ctx, "steal", [Int(it.thread, "usize")])
+    if z3.is_true(z3.simplify(r)):
+        pset(it, (4, it.thread), z3.BoolVal(True))
+        pset(it, (6,), cnt(pget(it, 6).t + 1))
+        return some_item()
+    return NONE
+
+
+def ck_is_young(it, ctx, fn, args):
+    ch = CM.take_choice(ctx, it)
+    return (ch & 1) == 1
+
+
+@pm("verif_copied_by_me")
+def p_copied_by_me(it, ctx, callee, args):
+    # the object may already have been forwarded by another worker (then nothing is pushed)
+    ch = CM.take_choice(ctx, it)
+    if ctx.branch((ch & 1) == 1):
+        pset(it, (7,), cnt(pget(it, 7).t + 1))
+        return z3.BoolVal(True)
+    return z3.BoolVal(False)
+
+
+def vec_len_local(it, ctx, callee, args):
+    v = args[0]
+    from ..mir.models import deref, m_len
+    d = deref(v)
+    from ..mir.interp import Opaque
+    if isinstance(d, Opaque) and d.what == "copy-local":
+        return Int(z3.ZeroExt(56, pget(it, 0, it.thread).t), "usize")
+    return m_len(it, ctx, callee, args)
+
+
+def vec_push_local(it, ctx, callee, args):
+    from ..mir.models import deref, m_vec_push
+    from ..mir.interp import Opaque
+    d = deref(args[0])
+    if isinstance(d, Opaque) and d.what == "copy-local":
+        return p_push_local(it, ctx, "push", [Int(it.thread, "usize")])
+    if isinstance(d, Opaque) and d.what == "remset":
+        return UNIT
+    return m_vec_push(it, ctx, callee, args)
+
+
+COPY_PRIVATE = ("CopyTask::pop_local", "CopyTask::is_young", "Vec::len", "Vec::push", "verif_slot", "verif_copied_by_me")
+COPY_VISIBLE = ("CopyTask::pop_worker", "CopyTask::pop_global", "CopyTask::steal", "Worker::push", "verif_child_exists")
+
+
+def visible_copy(callee):
+    if callee in COPY_PRIVATE:
+        return False
+    if callee in COPY_VISIBLE:
+        return True
+    return visible(callee)
+
+
+def build_system_copy(rt_prog, drv_prog, nworkers, budget, initial):
+    """the real CopyTask loop of minor.rs; LOCAL_MAXIMUM is scaled down to 1 so that the path
+    `worker.push(item); terminator.wake_up()` of push_item is reachable within the bound"""
+    import re as _re
+    from ..mir.structs import Layouts
+    from ..mir.interp import Opaque
+    models = list(POOL_MODELS) + CM.all_models()
+    models.insert(0, (_re.compile(r"(crossbeam_deque::)?(deque::)?Worker::push"), hk_worker_push))
+    models.insert(0, (_re.compile(r"Vec::len"), vec_len_local))
+    models.insert(0, (_re.compile(r"Vec::push"), vec_push_local))
+    sysm = B.System([rt_prog, drv_prog], models, visible_copy, nworkers)
+    term = Tup((Int(nworkers, "usize"), CM.mk_atomic(Int(nworkers, "usize")), CM.mk_atomic(Int(0, "usize")),
+                CM.mk_mutex(), CM.mk_condvar(1)), name="Terminator")
+    sysm.add_root("term", term)
+    sysm.add_root("sched", Tup([Int(0, "u8") for _ in range(nworkers)]))
+    pool = Tup((Tup([cnt(0) for _ in range(nworkers)]), Tup([cnt(0) for _ in range(nworkers)]), cnt(initial), cnt(budget),
+                Tup([z3.BoolVal(False) for _ in range(nworkers)]), z3.BoolVal(False), cnt(0), cnt(initial)), name="Pool")
+    sysm.add_root("pool", pool)
+    L = Layouts(common.REPO)
+    MN = "dora-runtime/src/gc/swiper/minor.rs"
+    unit = lambda v: (lambda it, ctx, fn, args: v)
+    sysm.hooks = {
+        "CopyTask::pop_local": ck_pop_local, "CopyTask::pop_worker": ck_pop_worker, "CopyTask::pop_global": ck_pop_global,
+        "CopyTask::steal": ck_steal, "CopyTask::is_young": ck_is_young,
+        "Address::to_obj": unit(Opaque("obj")), "Runtime::shape_base": unit(addr(0)), "Slot::get": unit(addr(8)),
+        "Slot::relocate": unit(UNIT), "Lab::make_iterable_young": unit(UNIT), "Lab::make_iterable_old": unit(UNIT),
+        "Object::header": unit(Opaque("header")), "Header::set_remembered": unit(UNIT),
+    }
+    for h in sysm.hooks:
+        if rt_prog.find(h) is None:
+            raise Inconclusive("hook target %s not found in the MIR dump" % h)
+    sysm.redirects = {"Object::visit_reference_fields": "drv_c12_visit_fields", "CopyTask::evacuate_object": "drv_c12_evacuate"}
+    for need in ("CopyTask::trace_gray_objects", "CopyTask::push_item", "CopyTask::evacuate_object", "Object::visit_reference_fields"):
+        if rt_prog.find(need) is None:
+            raise Inconclusive("%s not found in the MIR dump" % need)
+    sysm.const_overrides = {"LOCAL_MAXIMUM": Int(1, "usize")}
+    worker = drv_prog.find("drv_c12_copy_worker")
+    if worker is None:
+        raise Inconclusive("driver drv_c12_copy_worker missing")
+    for t in range(nworkers):
+        task = L.make(MN, "CopyTask", task_id=Int(t, "usize"), local=Opaque("copy-local"), worker=Opaque("worker"),
+                      injector=Opaque("injector"), stealers=Opaque("stealers"), terminator=sysm.root_ref("term"),
+                      rt=Opaque("rt"), added_to_remset=Opaque("remset"), traced=Int(0, "usize"), shape_base=addr(0), old_lab=Opaque("lab"), young_lab=Opaque("lab"))
+        sysm.add_root("task%d" % t, task)
+        sysm.add_thread(worker, [sysm.root_ref("task%d" % t), Int(t, "usize")])
+    return sysm
+
+
 def build_system_marking(rt_prog, drv_prog, nworkers, budget, initial):
     from ..mir.structs import Layouts
     from ..mir.interp import Opaque
@@ -374,7 +512,7 @@ def svar(sysm, tag, idx):
 def run_config(rt, drv, N, budget, initial, K, tmo, deadline, qjobs=1, variant="driver"):
     """returns dict with verdicts; raises Inconclusive"""
     t0 = time.time()
-    sysm = (build_system_marking if variant == "marking" else build_system)(rt, drv, N, budget, initial)
+    sysm = {"marking": build_system_marking, "copy": build_system_copy}.get(variant, build_system)(rt, drv, N, budget, initial)
     sysm.build(deadline)
     nn = sum(len(n) for n, e in sysm.cfa)
     ne = sum(len(e) for n, e in sysm.cfa)
@@ -410,9 +548,11 @@ CONFIGS = {
     # first entry = core configuration: must be decided completely (incl. "no execution is longer than K")
     # (workers, budget, initial items, K, variant): "driver" = worker loop of engines/drivers/src/c12.rs,
     # "marking" = the real MarkingTask::{run, pop, trace, defensive_push} of gc/swiper/marking.rs
-    "quick": [(2, 1, 1, 52, "driver"), (2, 1, 1, 52, "marking"), (2, 2, 1, 40, "driver")],
+    # "copy" = the real CopyTask::{trace_gray_objects, trace_*_object, push, push_item, defensive_push, pop} of minor.rs
+    "quick": [(2, 1, 1, 52, "driver"), (2, 1, 1, 52, "marking"), (2, 1, 1, 52, "copy"), (2, 2, 1, 40, "driver")],
     "thorough": [(2, 1, 1, 52, "driver"), (2, 1, 1, 52, "marking"), (2, 2, 1, 75, "driver"), (2, 2, 1, 75, "marking"),
-                 (2, 3, 1, 95, "driver"), (3, 1, 1, 72, "driver"), (3, 1, 1, 72, "marking"), (3, 2, 1, 85, "driver")],
+                 (2, 3, 1, 95, "driver"), (3, 1, 1, 72, "driver"), (3, 1, 1, 72, "marking"), (3, 2, 1, 85, "driver"),
+                 (2, 1, 1, 52, "copy"), (2, 2, 1, 75, "copy")],
 }
 
 
